@@ -149,9 +149,8 @@ def shards(tier, seed=1):
     for fam, op in _COMBOS:
         for shapes in ((["DP0"], ["P1", "DP1"]), (["P1", "DP1"], ["DP0"])) if fam != "maxwell" else ((["SNC"], ["RWG"]),):
             allc.append((fam, op, shapes))
-    sel = rot(allc, seed, 3) if q else allc
-    if q and not any(c[0] == "maxwell" for c in sel):
-        sel = sel[:2] + [("maxwell", "M" if seed % 2 else "E", (["SNC"], ["RWG"]))]
+    # quick: two rotating scalar kernel/shape-set combinations (one assembler, default_scalar) and both Maxwell assemblers
+    sel = (rot([c for c in allc if c[0] != "maxwell"], seed, 2) + [c for c in allc if c[0] == "maxwell"]) if q else allc
     out = [{"check": "pair", "fam": fam, "op": op, "tk": shapes[0], "dk": shapes[1], "examples": (10 if fam != "maxwell" else 6) * n, "budget_s": 280 * n}
            for fam, op, shapes in sel]
     if not q:
